@@ -487,6 +487,14 @@ def coerce(path, v, shape):
             items = items.shape.store(items, SV(IntS, z3.IntVal(i)), coerce(path, x, elem))
         path.write_field(obj, 'items', items)
         path.write_field(obj, 'len', SV(IntS, z3.IntVal(len(v.items))))
+        # multiset view of the literal: each listed element counted once per occurrence, nothing else
+        from .builtins_impl import const_map
+        cnt = const_map(container_fields(shape.cls)['cnt'], z3.IntVal(0))
+        for x in v.items:
+            xe = coerce(path, x, elem)
+            c = cnt.shape.select(cnt, xe)
+            cnt = cnt.shape.store(cnt, xe, SV(IntS, c.e + 1))
+        path.write_field(obj, 'cnt', cnt)
         return obj
     if isinstance(shape, RefS) and shape.cls in CONTAINERS and CONTAINERS[shape.cls][0] == 'list' \
             and type(v).__name__ == 'VView' and path is not None and getattr(v, 'filter', None) is None:
